@@ -249,6 +249,10 @@ pub fn run(prop: PathProp, tier: Tier, seed: u64) -> i32 {
         }
         ctx.merge(b);
     });
+    if prop == PathProp::C02 {
+        c02_histories(&ctx, tier, seed);
+        ctx.require("history_paths_after_problem_change");
+    }
     for p in crate::world::ALL_PLANNERS {
         ctx.require(&format!("paths[{}]", p.name()));
     }
@@ -285,4 +289,60 @@ pub fn replay(prop: PathProp, v: &serde_json::Value, file: &str) -> i32 {
     ctx.merge(b);
     crate::util::say(&format!("replayed scenario: {}", sc.describe()));
     ctx.finish("replay of one recorded scenario", &[], json!({"replay": true}))
+}
+
+/// C02 over call histories: every Ok path must start at the start of the problem installed
+/// most recently (setup / set_problem_definition) and end in its goal.
+fn c02_histories(ctx: &Ctx, tier: Tier, seed: u64) {
+    use super::hist::{run_history, Op};
+    let n = tier.pick(4_000, 60_000);
+    let shards = 64;
+    par_shards(shards, crate::util::n_threads(), |sh| {
+        let mut b = Batch::default();
+        let mut i = sh;
+        while i < n {
+            let mut r = Sm::derive(seed, &[202, i as u64]);
+            let mut h = super::c08::base_history(&mut r, i);
+            // valid starts only: C02 is about which problem is answered
+            for k in 0..2 {
+                let spec = h.problems[k].spec.clone();
+                let host = *r.pick(&[Hostility::Free, Hostility::Plain]);
+                h.problems[k] = crate::world::gen_problem(&mut r, &spec, host);
+                if h.params.kind == PKind::Prm {
+                    h.problems[k].goal.radius *= 2.5;
+                }
+            }
+            let al = super::c08::op_alphabet(h.params.kind, &mut r);
+            let len = 2 + r.below(7);
+            h.ops = (0..len).map(|_| r.pick(&al).clone()).collect();
+            b.evaluations += 1;
+            with_kit!(h.problems[0].spec, K, kit => {
+                if let Ok((_, recs)) = run_history::<K>(&kit, &h, false, 3_000_000) {
+                    let Ok(sp) = kit.build() else { continue };
+                    let mut changes = 0;
+                    for c in &recs {
+                        if matches!(c.op, Op::Setup(_) | Op::SetPd(_)) {
+                            changes += 1;
+                        }
+                        if let (Res::Path(p), Some(pi)) = (&c.res, c.pd) {
+                            b.count("history_paths", 1);
+                            if changes >= 2 {
+                                b.count("history_paths_after_problem_change", 1);
+                            }
+                            if p.len() >= 3 {
+                                b.distinct.insert(hash_path(p));
+                            }
+                            for (sig, det) in path_endpoints(&kit, &sp, &h.problems[pi], p) {
+                                let mut v = h.to_json();
+                                v["property"] = json!("C02");
+                                ctx.violate(&format!("{sig}:{}:after-history", h.params.kind.name()), format!("{det} [history: {}; installed problem P{}]", h.describe(), pi + 1), v);
+                            }
+                        }
+                    }
+                }
+            });
+            i += shards;
+        }
+        ctx.merge(b);
+    });
 }
